@@ -71,6 +71,11 @@ def _lab(t, name):
     return t
 
 
+def _label_new(st, mark, name):
+    for t_ in st.pc[mark:]:
+        _lab(t_, name)
+
+
 class Evaluator:
     """Mixin of Engine: expression evaluation."""
 
@@ -528,7 +533,9 @@ class Evaluator:
             PJ = z3.Function('pathjoin', Elem, Elem, Elem)
             return VElem(PJ(a.t, flatten('elem', b)[0]), kind='Path')
         if not (is_num(a) and is_num(b)):
+            mark_ = len(st.pc)
             h = self.binop_hook(op, a, b, st, node)
+            _label_new(st, mark_, 'theory:elementwise')
             if h is not None:
                 return h
             raise Unsupported('binary %s on %r, %r (line %s)' % (type(op).__name__, a, b, getattr(node, 'lineno', '?')))
@@ -612,7 +619,9 @@ class Evaluator:
             f = z3.Function('mask_eq', Elem, z3.IntSort(), Elem)
             return ('val', VElem(f(a.t, b.t), kind='ndarray'))
         if isinstance(op, (ast.Eq, ast.NotEq, ast.Lt, ast.LtE, ast.Gt, ast.GtE)):
+            mark_ = len(st.pc)
             r_ = self.nd_compare(op, a, b, st, node)
+            _label_new(st, mark_, 'theory:elementwise')
             if r_ is not None:
                 return ('val', r_)
         if isinstance(op, ast.Eq):
@@ -665,7 +674,10 @@ class Evaluator:
     def ev_Subscript(self, node, st):
         base = self.ev(node.value, st)
         if type(base).__name__ == 'VMat' and isinstance(node.slice, ast.Tuple):
-            return self.mat_subscript_ast(base, node.slice, st, node)
+            mark_ = len(st.pc)
+            r_ = self.mat_subscript_ast(base, node.slice, st, node)
+            _label_new(st, mark_, 'theory:index')
+            return r_
         if isinstance(base, VObj) and isinstance(node.slice, ast.Tuple) and len(node.slice.elts) == 2 \
                 and isinstance(node.slice.elts[1], ast.Constant) and node.slice.elts[1].value is Ellipsis:
             # obj[i, ...]: the trailing Ellipsis selects everything in the remaining dimensions = obj[i]
